@@ -347,11 +347,11 @@ func (w *world) apply(o op, e vh.Ev) (feasible bool) {
 				select {
 				case <-l.recv.done:
 				case <-l.lst.destroyed:
-					// reset instead of answered
-					select {
-					case <-l.recv.done:
-					case <-time.After(50 * time.Millisecond):
-						e["res"] = "reset:" + fmt.Sprint(l.lst.reset.Load())
+					// the stream is destroyed before the receiver is called; a reset is recorded before the destruction
+					if r := l.lst.reset.Load(); r != nil {
+						e["res"] = "reset:" + fmt.Sprint(r)
+					} else if !waitCh(l.recv.done) {
+						e["res"] = "stuck"
 					}
 				case <-time.After(opDeadline):
 					e["res"] = "stuck"
